@@ -16,19 +16,23 @@ Definition robs_eqb (a b : robs) : bool :=
 Definition case07 := (bool * tree * list (id * str) * pos * str * str * bool * bool * robs)%type.
 (** a round-trip case additionally carries the node the path was spelled for and
     the components it was spelled from (is_name, text) *)
-Definition case07rt := (case07 * option (id * list (bool * str)))%type.
+Definition case07rt := (case07 * option (id * bool * list (bool * str)))%type.
 
 Fixpoint contains (sep s : str) : bool :=
   match s with
   | [] => match sep with [] => true | _ => false end
   | _ :: r => starts_with sep s || contains sep r
   end.
-(** the path syntax cannot spell the node: a name on the path is empty, '.', '..'
-    or contains the separator, or '..' itself contains the separator *)
-Definition collides (sep : str) (comps : list (bool * str)) : bool :=
+(** the path syntax cannot spell the node: a name on the path is '', '.' or
+    '..', or splitting the spelled text at the separator does not give the
+    components back (a name contains the separator, the separator is a substring
+    of '..', or a name's end together with the separator forms an earlier
+    match), or a relative spelling starts with the separator *)
+Definition collides (sep path : str) (isabs : bool) (comps : list (bool * str)) : bool :=
   existsb (fun c : bool * str =>
-             if fst c then str_eqb (snd c) [] || str_eqb (snd c) [46]%N || str_eqb (snd c) [46; 46]%N || contains sep (snd c)
-             else contains sep (snd c)) comps.
+             fst c && (str_eqb (snd c) [] || str_eqb (snd c) [46]%N || str_eqb (snd c) [46; 46]%N)) comps
+  || negb (list_eqb str_eqb (split sep path) ((if isabs then [[]] else []) ++ map snd comps))
+  || (negb isabs && starts_with sep path).
 
 Definition nm_of (l : list (id * str)) (n : id) : str := match assoc l n with Some s => s | None => [] end.
 
@@ -77,8 +81,8 @@ Definition corr_C07 (cs : list case07rt) : greport :=
     let c := fst cr in
     (robs_eqb (model07 c) (c_obs07 c),
      robs_eqb (spec07 c) (c_obs07 c)
-     && match snd cr with Some (n, _) => robs_eqb (c_obs07 c) (RNode n) | None => true end,
+     && match snd cr with Some (n, _, _) => robs_eqb (c_obs07 c) (RNode n) | None => true end,
      match snd cr with
-     | Some (_, comps) => let '(_, _, _, _, _, sep, _, _, _) := c in negb (collides sep comps)
+     | Some (_, isabs, comps) => let '(_, _, _, _, path, sep, _, _, _) := c in negb (collides sep path isabs comps)
      | None => true
      end)) cs).
